@@ -126,6 +126,19 @@ struct Ctx {
   }
 };
 
+// Execution deadline of a child: CPU seconds consumed by the process (RLIMIT_CPU -> SIGXCPU), so that a loaded machine
+// cannot turn a slow run into a "hang"; a generous wall-clock alarm remains as a backstop for a child that sleeps.
+#include <sys/resource.h>
+static inline void kit_cpu_deadline(int seconds) {
+  struct rusage ru; long used = 0;
+  if (getrusage(RUSAGE_SELF, &ru) == 0) used = (long) ru.ru_utime.tv_sec + (long) ru.ru_stime.tv_sec + 1;
+  struct rlimit rl;
+  if (getrlimit(RLIMIT_CPU, &rl) == 0) { rl.rlim_cur = (rlim_t) (used + seconds); if (rl.rlim_max != RLIM_INFINITY && rl.rlim_cur > rl.rlim_max) rl.rlim_cur = rl.rlim_max; setrlimit(RLIMIT_CPU, &rl); }
+  signal(SIGXCPU, SIG_DFL);
+  signal(SIGALRM, SIG_DFL);
+  alarm((unsigned) (seconds * 10 + 60));
+}
+
 struct Harness {
   virtual ~Harness() {}
   virtual const char* name() const = 0;
@@ -242,7 +255,7 @@ struct Kernel {
           }
         }
         for (size_t j = 0; j < plans.size(); ++j) {
-          alarm((unsigned) hs.child_seconds());
+          kit_cpu_deadline(hs.child_seconds());
           sh->scratch[15] = (long) j; sh->cur_op = -1; sh->in_branch = 0; sh->kind[0] = 0; sh->fault[0] = 0; sh->note[0] = 0;
           Ctx ctx; ctx.plan = &plans[j]; ctx.sh = sh; ctx.out_fd = res;
           hs.run(plans[j], ctx);
@@ -304,7 +317,8 @@ struct Kernel {
       std::string how;
       if (WIFSIGNALED(st)) {
         int sg = WTERMSIG(st);
-        if (sg == SIGALRM) { v.monitor = "hang"; how = "wallclock"; }
+        if (sg == SIGXCPU) { v.monitor = "hang"; how = "cputime"; }
+        else if (sg == SIGALRM) { v.monitor = "hang"; how = "wallclock"; }
         else { v.monitor = "crash"; how = std::string("sig") + std::to_string(sg); }
       }
       else if (WIFEXITED(st) && WEXITSTATUS(st) == 77) { v.monitor = "sanitizer"; how = "report"; }
